@@ -16,7 +16,8 @@ EXPLANATION = (
     "overridden in StreamTeeHub by a re-wrap through Stream(self); in-place methods return self and derive the new "
     "iterator lazily from the old one with the arguments in the documented order; thub is the identity on "
     "non-iterables; lazy_itertools.tee makes n Streams from itertools.tee(data, n). It does not decide agreement "
-    "with the list model for every history and every numeric n (values of rounding).")
+    "with the list model for every history and every numeric n (values of rounding)."
+    " Also: C03.take is also decided as a decision table: the body of Stream.take is folded (literals only, no repository code runs) for representative counts None, +-inf, nan, halves, negative and integer values, whatever the order and spelling of its guards; skip/limit structure, hub constructor/copy paths and the guard polarity / default of lazy_itertools.tee are decided the same way. ")
 
 UNDECIDED = ["which items for float/inf/negative n beyond the rounding shape", "list-model equivalence over histories"]
 
